@@ -113,41 +113,170 @@ Proof.
 Qed.
 
 (* ---------------------------------------------------------------- which fields are rewritten *)
-(* rewriting_unparse looks at every field of every non-Constant node and rewrites it when
-   `type(v) is str` (checked by the translator): a field holding a *list* of strings -- Global.names,
-   Nonlocal.names, MatchClass.kwd_attrs -- is left alone. *)
+(* rewriting_unparse looks at every field of every non-Constant node: a str field is minced; a field that
+   holds a list of strings (Global.names, Nonlocal.names, MatchClass.kwd_attrs) is minced element-wise when
+   the regenerated flag [list_fields_minced] is set (fix 55f8aa9; before it such fields were left alone). *)
 Inductive field :=
 | FStr (v : text)
 | FStrList (l : list text)
 | FOther.
 
+Fixpoint map_opt {A B} (f : A -> option B) (l : list A) : option (list B) :=
+  match l with
+  | [] => Some []
+  | a :: r => match f a, map_opt f r with Some b, Some bs => Some (b :: bs) | _, _ => None end
+  end.
+
 Definition rewrite_field (f : field) : option field :=
   match f with
   | FStr v => option_map FStr (rewrite_ident v)
-  | other => Some other
+  | FStrList l => if list_fields_minced then option_map FStrList (map_opt rewrite_ident l) else Some (FStrList l)
+  | FOther => Some FOther
   end.
+
+Definition bad_kw (v : text) : bool := is_keyword v && negb (in_list v mince_exclusions).
 
 Definition field_has_keyword (f : field) : bool :=
   match f with
-  | FStr v => is_keyword v && negb (in_list v mince_exclusions)
-  | FStrList l => existsb (fun v => is_keyword v && negb (in_list v mince_exclusions)) l
+  | FStr v => bad_kw v
+  | FStrList l => existsb bad_kw l
   | FOther => false
   end.
 
-(* string fields are clean after rewriting ... *)
-Theorem str_fields_clean : forall (nfkc : text -> text),
-  (forall c r, is_lower c = true -> forallb is_ascii r = true -> nfkc (bold_of c :: r) = c :: r) ->
-  forall v f, rewrite_field (FStr v) = Some f -> field_has_keyword f = false.
+Lemma list_fields_minced_checked : list_fields_minced = true.
+Proof. reflexivity. Qed.
+
+Section Fields.
+Variable nfkc : text -> text.
+Hypothesis nfkc_bold : forall c r, is_lower c = true -> forallb is_ascii r = true -> nfkc (bold_of c :: r) = c :: r.
+
+Lemma rewritten_not_bad v w : rewrite_ident v = Some w -> bad_kw w = false.
 Proof.
-  intros nfkc H v f E. cbn [rewrite_field] in E. destruct (rewrite_ident v) as [w|] eqn:R; [|discriminate].
-  inversion E; subst. cbn [field_has_keyword]. destruct (is_keyword w) eqn:K; [|reflexivity].
-  pose proof (rewrite_leaves_no_keyword nfkc H v w R K) as X.
+  intros R. unfold bad_kw. destruct (is_keyword w) eqn:K; [|reflexivity].
+  pose proof (rewrite_leaves_no_keyword nfkc nfkc_bold v w R K) as X.
   unfold rewrite_ident in R. unfold minced in R. rewrite X in R. rewrite andb_false_r in R.
   inversion R; subst. rewrite X. reflexivity.
 Qed.
 
-(* ... but a keyword inside a list-of-strings field survives: `global if` is printed as is *)
+(* every identifier field -- a string or a list of strings -- is free of keywords after the rewriting *)
+Theorem fields_clean : forall f f', rewrite_field f = Some f' -> field_has_keyword f' = false.
+Proof.
+  intros f f' E. destruct f as [v|l|]; cbn [rewrite_field] in E.
+  - destruct (rewrite_ident v) as [w|] eqn:R; [|discriminate]. inversion E; subst. cbn. exact (rewritten_not_bad v w R).
+  - rewrite list_fields_minced_checked in E. destruct (map_opt rewrite_ident l) as [l'|] eqn:M; [|discriminate].
+    inversion E; subst. clear E. cbn [field_has_keyword]. revert l' M. induction l as [|v r IH]; intros l' M.
+    + inversion M. reflexivity.
+    + cbn [map_opt] in M. destruct (rewrite_ident v) as [w|] eqn:R; [|discriminate].
+      destruct (map_opt rewrite_ident r) as [ws|]; [|discriminate]. inversion M; subst. cbn [existsb].
+      rewrite (rewritten_not_bad v w R). exact (IH ws eq_refl).
+  - inversion E. reflexivity.
+Qed.
+
+(* and the rewriting of a field never fails *)
+Theorem rewrite_field_total : forall f, exists f', rewrite_field f = Some f'.
+Proof.
+  intros [v|l|]; cbn [rewrite_field].
+  - destruct (rewrite_total nfkc nfkc_bold v) as [w E]. rewrite E. eexists. reflexivity.
+  - rewrite list_fields_minced_checked. induction l as [|v r [f' IH]].
+    + eexists. reflexivity.
+    + destruct (rewrite_total nfkc nfkc_bold v) as [w E]. cbn [map_opt]. rewrite E.
+      destruct (map_opt rewrite_ident r) as [ws|]; [|discriminate]. eexists. reflexivity.
+  - eexists. reflexivity.
+Qed.
+End Fields.
+
 Definition kw_if : text := [105; 102]%N.
-Theorem list_field_keyword_survives :
-  rewrite_field (FStrList [kw_if]) = Some (FStrList [kw_if]) /\ field_has_keyword (FStrList [kw_if]) = true.
-Proof. vm_compute. split; reflexivity. Qed.
+(* (global if): the list field is minced (it survived before the fix 55f8aa9) *)
+Example global_if_is_minced : rewrite_field (FStrList [kw_if]) = Some (FStrList [[119842; 102]%N]).
+Proof. vm_compute. reflexivity. Qed.
+
+(* ---------------------------------------------------------------- negative numeric constants *)
+(* NegativeConstants (fix 4c5d6f5): on the copy that is printed, a Constant whose value is a negative int or
+   float (math.copysign(1, v) < 0; the kinds come from Gen/Keywords.v) becomes UnaryOp(USub, Constant(-v)),
+   which is what Python's parser produces for such text and what ast.unparse parenthesises correctly. *)
+Inductive nkind := KInt | KFloat | KComplex.
+Inductive pex :=
+| PNum (k : nkind) (neg : bool) (mag : N)      (* a numeric Constant: kind, sign, magnitude *)
+| PLeaf                                         (* any other leaf *)
+| PNeg (e : pex)                                (* UnaryOp(USub, e) *)
+| PNode (kids : list pex).                      (* any other node *)
+
+Definition handled (k : nkind) : bool := match k with KInt => neg_int | KFloat => neg_float | KComplex => neg_complex end.
+
+Fixpoint negconst (e : pex) : pex :=
+  match e with
+  | PNum k true m => if handled k then PNeg (PNum k false m) else e
+  | PNum _ false _ | PLeaf => e
+  | PNeg x => PNeg (negconst x)
+  | PNode l => PNode (map negconst l)
+  end.
+
+Fixpoint no_negative (e : pex) : bool :=
+  match e with
+  | PNum k neg _ => negb (neg && handled k)
+  | PLeaf => true
+  | PNeg x => no_negative x
+  | PNode l => forallb no_negative l
+  end.
+
+Section PexInd.
+Variable P : pex -> Prop.
+Hypothesis H1 : forall k n m, P (PNum k n m).
+Hypothesis H2 : P PLeaf.
+Hypothesis H3 : forall x, P x -> P (PNeg x).
+Hypothesis H4 : forall l, Forall P l -> P (PNode l).
+Fixpoint pex_ind' (e : pex) : P e :=
+  match e with
+  | PNum k n m => H1 k n m | PLeaf => H2 | PNeg x => H3 x (pex_ind' x)
+  | PNode l => H4 l ((fix go (l : list pex) : Forall P l :=
+                        match l with [] => Forall_nil P | x :: r => Forall_cons x (pex_ind' x) (go r) end) l)
+  end.
+End PexInd.
+
+(* after the transformation no handled-kind Constant is negative *)
+Theorem negconst_no_negative : forall e, no_negative (negconst e) = true.
+Proof.
+  induction e using pex_ind'.
+  - destruct n; cbn; [|reflexivity]. destruct (handled k) eqn:Hk; cbn; [reflexivity | rewrite Hk; reflexivity].
+  - reflexivity.
+  - exact IHe.
+  - cbn. rewrite forallb_forall. intros x Hx. apply in_map_iff in Hx. destruct Hx as (y & <- & Hy).
+    rewrite Forall_forall in H. exact (H y Hy).
+Qed.
+
+(* and the value is unchanged, for any evaluation in which negating the positive constant gives the negative one *)
+Section Eval.
+Variable V : Type.
+Variable num : nkind -> bool -> N -> V.
+Variable leaf : V.
+Variable usub : V -> V.
+Variable node : list V -> V.
+Hypothesis usub_num : forall k m, handled k = true -> usub (num k false m) = num k true m.
+
+Fixpoint peval (e : pex) : V :=
+  match e with
+  | PNum k n m => num k n m
+  | PLeaf => leaf
+  | PNeg x => usub (peval x)
+  | PNode l => node (map peval l)
+  end.
+
+Theorem negconst_preserves_value : forall e, peval (negconst e) = peval e.
+Proof.
+  induction e using pex_ind'.
+  - destruct n; cbn; [|reflexivity]. destruct (handled k) eqn:Hk; cbn; [exact (usub_num k m Hk) | reflexivity].
+  - reflexivity.
+  - cbn. rewrite IHe. reflexivity.
+  - cbn. f_equal. rewrite map_map. apply map_ext_in. intros x Hx. rewrite Forall_forall in H. exact (H x Hx).
+Qed.
+End Eval.
+
+(* the power form with base -2: the Constant(-2) under a node becomes -(2) *)
+Example pow_minus_two : negconst (PNode [PNum KInt true 2; PNum KInt false 2]) = PNode [PNeg (PNum KInt false 2); PNum KInt false 2].
+Proof. vm_compute. reflexivity. Qed.
+
+(* complex constants: either handled too, or a negative imaginary literal is left as it is
+   (on the current tree the second alternative computes: finding C14-negative-imaginary-literal) *)
+Theorem complex_constants_status :
+  neg_complex = true \/ negconst (PNum KComplex true 1) = PNum KComplex true 1.
+Proof. first [left; reflexivity | right; vm_compute; reflexivity]. Qed.
